@@ -5,6 +5,7 @@ package main
 import (
 	"bytes"
 	"fmt"
+	"os"
 	"strconv"
 	"strings"
 
@@ -33,13 +34,13 @@ type c07Sample struct {
 	numlab map[string][]int64
 }
 type c07Prof struct {
-	types       [][2]string // (type, unit)
-	dflt        string
-	periodType  [2]string
-	period      int64
-	samples     []c07Sample
-	duration    int64
-	timeNanos   int64
+	types      [][2]string // (type, unit)
+	dflt       string
+	periodType [2]string
+	period     int64
+	samples    []c07Sample
+	duration   int64
+	timeNanos  int64
 }
 type c07Tuple struct {
 	tab       c07Table
@@ -257,9 +258,9 @@ type c07Knobs struct {
 	units              int  // 0 same spelling, 1 convertible, 2 may be incompatible
 	perm, partial      bool // permuted / partially overlapping sample type lists
 	dupTypes           bool
-	zeros              int  // 1 in zeros values is 0 (0 = never)
+	zeros              int // 1 in zeros values is 0 (0 = never)
 	negative           bool
-	big                int  // 0 small, 1 up to 1e6, 2 extreme int64
+	big                int // 0 small, 1 up to 1e6, 2 extreme int64
 	labels             bool
 	selfDiff           bool // bases are copies of the sources
 	multiple           int  // >0: sources are base * multiple (normalisation exact)
@@ -522,7 +523,12 @@ func runC07(c *Ctx) {
 	}{
 		{"same-units", 150, 2500, func(k *c07Knobs, r *Rng) { k.nsrc = 1 + r.Intn(4) }},
 		{"convertible-units", 220, 4000, func(k *c07Knobs, r *Rng) { k.nsrc = 1 + r.Intn(3); k.units = 1; k.zeros = 3 }},
-		{"permuted-partial", 180, 3000, func(k *c07Knobs, r *Rng) { k.nsrc = 2 + r.Intn(3); k.units = r.Intn(2); k.perm = true; k.partial = true }},
+		{"permuted-partial", 180, 3000, func(k *c07Knobs, r *Rng) {
+			k.nsrc = 2 + r.Intn(3)
+			k.units = r.Intn(2)
+			k.perm = true
+			k.partial = true
+		}},
 		{"f4-shape", 80, 1200, func(k *c07Knobs, r *Rng) { k.units = 1; k.zeros = 2; k.maxCol = 2 }},
 		{"self-diff", 80, 1200, func(k *c07Knobs, r *Rng) { k.nsrc = 1 + r.Intn(2); k.selfDiff = true; k.units = r.Intn(2) }},
 		{"normalize-multiple", 70, 1000, func(k *c07Knobs, r *Rng) { k.multiple = 1 + r.Intn(4); k.norm = true; k.zeros = 6 }},
@@ -536,6 +542,11 @@ func runC07(c *Ctx) {
 		{"extreme-values", 60, 1000, func(k *c07Knobs, r *Rng) { k.big = 1 + r.Intn(2); k.nsrc = 2 + r.Intn(2) }},
 	}
 	for _, st := range streams {
+		// VERIF_ONLY=units: C15 reuses the unit-harmonising streams for its "harmonising the units of
+		// several profiles preserves each profile's physical totals" clause
+		if os.Getenv("VERIF_ONLY") == "units" && st.name != "convertible-units" && st.name != "f4-shape" {
+			continue
+		}
 		n := c.Budget(st.q, st.t)
 		for i := 0; i < n; i++ {
 			k := base
